@@ -953,6 +953,26 @@ where
     }
 }
 
+/// Elements of an owned array in standard layout, in logical order
+///
+/// `into_raw_vec` returns the whole allocation, which starts before the first element and/or ends
+/// after the last one when the array has been sliced in place.
+fn into_logical_vec<A, D: Dimension>(array: Array<A, D>) -> Vec<A> {
+    debug_assert!(array.is_standard_layout());
+
+    let len = array.len();
+    let first = array.as_ptr() as usize;
+    let mut vec = array.into_raw_vec();
+
+    if vec.len() != len {
+        let offset = (first - vec.as_ptr() as usize) / std::mem::size_of::<A>().max(1);
+        vec.truncate(offset + len);
+        vec.drain(..offset);
+    }
+
+    vec
+}
+
 impl<F, E, I: TargetDim> Dataset<F, E, I> {
     /// Split dataset into two disjoint chunks
     ///
@@ -993,7 +1013,7 @@ impl<F, E, I: TargetDim> Dataset<F, E, I> {
         let target_names = self.target_names().to_vec();
 
         // split records into two disjoint arrays
-        let mut array_buf = self.records.into_raw_vec();
+        let mut array_buf = into_logical_vec(self.records);
         let second_array_buf = array_buf.split_off(n1 * nfeatures);
 
         let first = Array2::from_shape_vec((n1, nfeatures), array_buf).unwrap();
@@ -1002,7 +1022,7 @@ impl<F, E, I: TargetDim> Dataset<F, E, I> {
         // split targets into two disjoint Vec
         let dim1 = self.targets.raw_dim().nsamples(n1);
         let dim2 = self.targets.raw_dim().nsamples(n2);
-        let mut array_buf = self.targets.into_raw_vec();
+        let mut array_buf = into_logical_vec(self.targets);
         let second_array_buf = array_buf.split_off(dim1.size());
 
         let first_targets = Array::from_shape_vec(dim1, array_buf).unwrap();
@@ -1010,12 +1030,10 @@ impl<F, E, I: TargetDim> Dataset<F, E, I> {
 
         // split weights into two disjoint Vec
         let second_weights = if self.weights.len() == n1 + n2 {
-            let mut weights = self.weights.into_raw_vec();
+            let weights2 = self.weights.slice(s![n1..]).to_owned();
+            self.weights = self.weights.slice(s![..n1]).to_owned();
 
-            let weights2 = weights.split_off(n1);
-            self.weights = Array1::from(weights);
-
-            Array1::from(weights2)
+            weights2
         } else {
             Array1::zeros(0)
         };
